@@ -3,6 +3,7 @@ C05 — A YAML pipeline section builds the chain it describes.
 -/
 import CobaldVerif.Model.Pipeline
 import CobaldVerif.Props.C04
+import CobaldVerif.Generated.Src
 
 namespace Cobald.Props.C05
 open Cobald Cobald.Partial Cobald.Pipeline
@@ -117,5 +118,17 @@ def t1 : Tmpl := ⟨1, [⟨2, false⟩], [], false⟩
 def t2 : Tmpl := ⟨8, [], [], true⟩
 example : (pipeline (fun _ => false) [.tag t0, .legacy t1, .tag t2]).2 = [t2, t1, t0] := by decide
 example : (pipeline (fun t => t.ctor == 1) [.tag t0, .legacy t1, .tag t2]).2 = [t2] := by decide
+
+/-! ### the walk as written in the source
+
+`Gen.pipelineWalkShape` is re-computed from the syntax tree of
+`PipelineTranslator.translate_hierarchy` on every run: only the lookup `structure["pipeline"]` is
+guarded by the `except (KeyError, TypeError)` that means "not a pipeline section"; the elements
+are walked last to first; the last one is translated without target and constructed if it is still
+a template (`construct1 none`); every other one is bound with `>>` if it has one (`.tag`), else
+translated with `target=` the previous object (`.legacy`); the result is in configuration order
+(`pipeline` = `walk` over the reversed list). -/
+
+theorem gen_pipeline_walk_shape : Gen.pipelineWalkShape = true := rfl
 
 end Cobald.Props.C05
